@@ -93,12 +93,17 @@ Answer == /\ req.phase \in {"choosing", "served"} /\ act' = "Answer"
           /\ req' = NoReq
           /\ UNCHANGED <<kind, up, lists, status, known, cnt>>
 
+\* a model listing under a provider prefix: only models olla knows on endpoints of that kind (C11)
+ListOK(route, ms) == ms \subseteq UNION {known[e] : e \in {x \in EP : Allowed(route, x)}}
+List(route) == /\ Idle /\ act' = "List" /\ UNCHANGED <<kind, up, lists, status, known, req, cnt>>
+
 Log(t) == scn' = Append(scn, t)
 Modes == {"up", "sick", "down"}
 Next == \/ \E e \in EP : \E b \in Modes : SetUp(e, b) /\ Log([op |-> "up", e |-> e, b |-> b])
         \/ \E e \in EP : \E S \in SUBSET Models : Relist(e, S) /\ Log([op |-> "relist", e |-> e, S |-> S])
         \/ Health /\ Log([op |-> "health"])
         \/ \E r \in Routes : \E m \in Ask : Arrive(r, m) /\ Log([op |-> "req", route |-> r, model |-> m])
+        \/ \E r \in Routes \ {"proxy", "anthropic"} : List(r) /\ Log([op |-> "list", route |-> r])
         \/ \E e \in EP : Attempt(e) /\ UNCHANGED scn
         \/ Answer /\ UNCHANGED scn
 Spec == Init /\ [][Next]_vars
